@@ -7,4 +7,6 @@ MCShapeSet == AllShapes(MaxDims, Lens)
 MCCatalogue == {<<5, 4, 3, 2>>, <<2, 3, 4, 5>>, <<5, 1, 5, 1>>, <<1, 5, 1, 5>>, <<4, 4, 4, 4>>,
                 <<5, 2, 1, 3, 4>>, <<1, 1, 5, 1, 1>>, <<2, 5, 2, 5, 2>>, <<3, 3, 3, 3, 3>>,
                 <<5, 5, 5, 2>>, <<4, 5, 5, 4>>}
+\* arrays without cells: some axis has length zero (views along the other axes exist and are empty)
+MCZeroShapes == {<<0>>, <<2, 0>>, <<0, 2>>, <<2, 0, 3>>, <<3, 2, 0>>, <<0, 3, 2>>, <<0, 0>>, <<1, 0, 1>>, <<2, 2, 0, 2>>}
 =============================================================================
